@@ -314,6 +314,11 @@ def main(argv):
     evname = prop + (".partial" if only else "") + ".json"
     with open(os.path.join(evdir, evname), "w") as f:
         json.dump(evidence, f, indent=1)
+    if tier == "thorough" and not only and evdir.endswith("evidence"):
+        # the evidence file belongs to the latest run of either tier; keep a record of the last complete thorough run
+        os.makedirs(os.path.join(VERIF, "runs", "thorough"), exist_ok=True)
+        with open(os.path.join(VERIF, "runs", "thorough", prop + ".json"), "w") as f:
+            json.dump(evidence, f, indent=1)
     print("%s %s: obligations=%d discharged=%d inconclusive=%d violations=%d known=%d paths=%d queries=%d wall=%.0fs" %
           (prop, tier, len(insts), discharged, len(inconclusive), len(violations), len(known_seen),
            ev["evaluations"], ev["queries"], wall))
